@@ -23,7 +23,8 @@ ASSUME \A a, b \in S : IToSmall(IMul(I(a), I(b))) = a * b
 ASSUME \A a, b \in S : b # 0 => IToSmall(IDiv(I(a), I(b))) = TDiv(a, b) /\ IToSmall(IRem(I(a), I(b))) = TRem(a, b)
 ASSUME \A a, b \in S : ICmp(I(a), I(b)) = Sgn(a - b)
 ASSUME \A a \in S : a >= 0 => \A n \in 0..12 : NToSmall(NShl(NFromSmall(a), n)) = a * 2^n /\ NToSmall(NShr(NFromSmall(a), n)) = a \div 2^n
-ASSUME \A a \in S : \A w \in {8, 16, 32} : IToSmall(IWrap(I(a), w, TRUE)) = ((a + 2^(w-1)) % 2^w) - 2^(w-1) \/ w = 32
+ASSUME \A a \in S : \A w \in {8, 16} : IToSmall(IWrap(I(a), w, TRUE)) = ((a + 2^(w-1)) % 2^w) - 2^(w-1)
+ASSUME \A a \in S : IWrap(I(a), 32, TRUE) = I(a) /\ IWrap(I(a), 64, TRUE) = I(a)
 ASSUME \A a \in S : \A w \in {8, 16} : IToSmall(IWrap(I(a), w, FALSE)) = a % 2^w
 
 \* 64-bit boundary values
@@ -32,7 +33,8 @@ M1(x) == ISub(x, IOne)
 Big == {IZero, IOne, I(-1), P(31), M1(P(31)), INeg(P(31)), P(32), M1(P(32)), P(63), M1(P(63)), INeg(P(63)), P(64), M1(P(64)), I(10), I(-7), I(1000000007)}
 
 ASSUME \A x, y \in Big : IAdd(x, y) = IAdd(y, x) /\ ISub(IAdd(x, y), y) = x /\ IMul(x, y) = IMul(y, x)
-ASSUME \A x, y, z \in Big : IMul(x, IAdd(y, z)) = IAdd(IMul(x, y), IMul(x, z))
+Mid == {IOne, I(-1), M1(P(31)), P(32), INeg(P(63)), M1(P(64)), I(-7), I(1000000007)}
+ASSUME \A x, y, z \in Mid : IMul(x, IAdd(y, z)) = IAdd(IMul(x, y), IMul(x, z))
 ASSUME \A x, y \in Big : ~IIsZero(y) =>
           /\ IAdd(IMul(IDiv(x, y), y), IRem(x, y)) = x
           /\ NLt(IRem(x, y).mag, y.mag)
@@ -54,7 +56,7 @@ ASSUME IToDecStr(IMul(M1(P(64)), M1(P(64)))) = "34028236692093846342648111928434
 ASSUME IToDecStr(IDiv(M1(P(64)), I(10))) = "1844674407370955161"
 ASSUME IFromDecChars(<<"-", "2", "1", "4", "7", "4", "8", "3", "6", "4", "8">>) = INeg(P(31))
 ASSUME NFromDigits(<<15, 15, 15, 15, 15, 15, 15, 15>>, 16) = M1(P(32)).mag
-ASSUME NFromDigits(<<1, 7, 7, 7, 7, 7, 7, 7, 7, 7, 7, 7>>, 8) = M1(P(33)).mag
+ASSUME NFromDigits(<<1, 7, 7, 7, 7, 7, 7, 7, 7, 7, 7, 7>>, 8) = M1(P(34)).mag
 ASSUME IWrap(M1(P(32)), 32, TRUE) = I(-1) /\ IWrap(I(-1), 64, FALSE) = M1(P(64)) /\ IWrap(P(31), 32, TRUE) = INeg(P(31))
 ASSUME PrintT(<<"CIntLaws", "OK", Cardinality(S), Cardinality(Big)>>)
 =============================================================================
